@@ -148,6 +148,10 @@ class _Canon(ast.NodeTransformer):
                 return ast.Compare(inner.left, [_FLIP[type(inner.ops[0])]()], inner.comparators)
             if is_not(inner):
                 return inner.operand  # type: ignore[attr-defined]
+            if isinstance(inner, ast.BoolOp):
+                # De Morgan: the negation is pushed to the leaves
+                flip = ast.Or() if isinstance(inner.op, ast.And) else ast.And()
+                return ast.BoolOp(flip, [self.visit(ast.UnaryOp(ast.Not(), v)) for v in inner.values])
         return node
 
 
@@ -182,7 +186,40 @@ class _CanonTree(_Canon):
         return node
 
 
+_EXITS = (ast.Return, ast.Continue, ast.Break, ast.Raise)
+
+
+def _flatten_else_after_exit(stmts: list[ast.stmt]) -> list[ast.stmt]:
+    """`if c: ...; <exit>  else: rest`  ->  `if c: ...; <exit>` followed by `rest` (what follows an exiting branch needs no else);
+    applied to every statement list, innermost first"""
+    out: list[ast.stmt] = []
+    for st in stmts:
+        for fld in ("body", "orelse", "finalbody"):
+            sub = getattr(st, fld, None)
+            if isinstance(sub, list) and sub and isinstance(sub[0], ast.stmt):
+                setattr(st, fld, _flatten_else_after_exit(sub))
+        if isinstance(st, ast.Try):
+            for h in st.handlers:
+                h.body = _flatten_else_after_exit(h.body)
+        if isinstance(st, ast.If) and st.orelse and st.body and not isinstance(st.body[-1], _EXITS) and isinstance(st.orelse[-1], _EXITS) \
+                and not (len(st.orelse) == 1 and isinstance(st.orelse[0], ast.If)):
+            # the exiting branch comes first: `if c: rest else: <exit>` -> `if not c: <exit>` followed by rest
+            st.test, st.body, st.orelse = canon(ast.UnaryOp(ast.Not(), st.test)), st.orelse, st.body
+        if isinstance(st, ast.If) and st.orelse and st.body and isinstance(st.body[-1], _EXITS):
+            rest = st.orelse
+            st.orelse = []
+            out.append(st)
+            out.extend(rest)
+        else:
+            out.append(st)
+    return out
+
+
 def canon_tree(tree: ast.Module) -> ast.Module:
+    for node in ast.walk(tree):
+        if isinstance(node, (ast.FunctionDef, ast.AsyncFunctionDef)):
+            node.body = _flatten_else_after_exit(node.body)
+    ast.fix_missing_locations(tree)
     out = _CanonTree().visit(tree)
     return ast.fix_missing_locations(out)
 
@@ -405,3 +442,128 @@ def call_names(e: ast.AST) -> set[str]:
             elif isinstance(f, ast.Attribute):
                 out.add(f.attr)
     return out
+
+
+# --------------------------------------------------------------------------- quantifier normal form
+class _Subst(ast.NodeTransformer):
+    def __init__(self, name: str, by: ast.expr):
+        self.name, self.by = name, by
+
+    def visit_Name(self, node: ast.Name) -> ast.AST:
+        if node.id == self.name and isinstance(node.ctx, ast.Load):
+            return copy.deepcopy(self.by)
+        return node
+
+
+def _subst(e: ast.expr, name: str, by: ast.expr) -> ast.expr:
+    return ast.fix_missing_locations(_Subst(name, by).visit(copy.deepcopy(e)))
+
+
+def _comp_parts(n: ast.AST):
+    """(element, target name, iterable, filters) of a single-generator comprehension / generator expression"""
+    if isinstance(n, (ast.ListComp, ast.GeneratorExp, ast.SetComp)) and len(n.generators) == 1 and isinstance(n.generators[0].target, ast.Name):
+        g = n.generators[0]
+        return n.elt, g.target.id, g.iter, list(g.ifs)
+    return None
+
+
+def qnf(atom: ast.expr):
+    """Quantifier normal form of an atomic condition, or None.
+
+    Returns (kind, var, domain, filters, body): `all`: for every var in domain with all filters, body holds; `any`: some var in domain
+    satisfies all filters and body.  Recognised spellings: any(gen) / all(gen); the truthiness of a comprehension (`if xs`, `not xs`,
+    `len(xs) > 0`, `len(xs) == 0`); domains that are themselves comprehensions, `filter(lambda ..)`, `list/tuple/set(..)` are
+    composed away, so that `all(p(l) for l in [f(u) for u in D if c(u)])` and `all(p(f(u)) for u in filter(c, D))` get one form.
+    """
+    e = primary(atom)
+    kind = var = dom = body = None
+    filters: list[ast.expr] = []
+    neg = False
+    if is_not(e):
+        neg, e = True, e.operand  # type: ignore[attr-defined]
+    # len(xs) comparisons
+    if isinstance(e, ast.Compare) and len(e.ops) == 1 and isinstance(e.left, ast.Call) and isinstance(e.left.func, ast.Name) and e.left.func.id == "len" \
+            and len(e.left.args) == 1 and isinstance(e.comparators[0], ast.Constant) and e.comparators[0].value == 0:
+        op = type(e.ops[0])
+        if op in (ast.Gt, ast.NotEq):
+            e = e.left.args[0]
+        elif op is ast.Eq:
+            e, neg = e.left.args[0], not neg
+        else:
+            return None
+    if isinstance(e, ast.Call) and isinstance(e.func, ast.Name) and e.func.id in ("any", "all") and len(e.args) == 1 and _comp_parts(e.args[0]):
+        elt, var, dom, filters = _comp_parts(e.args[0])  # type: ignore[misc]
+        kind, body = e.func.id, elt
+    elif _comp_parts(e):
+        # truthiness of a comprehension: some element passes the filters
+        _, var, dom, filters = _comp_parts(e)  # type: ignore[misc]
+        kind, body = "any", ast.Constant(True)
+    elif isinstance(e, ast.Call) and isinstance(e.func, ast.Name) and e.func.id in ("list", "tuple", "set") and len(e.args) == 1 and _comp_parts(e.args[0]):
+        _, var, dom, filters = _comp_parts(e.args[0])  # type: ignore[misc]
+        kind, body = "any", ast.Constant(True)
+    else:
+        return None
+    if neg:
+        # not any(F and B) = all(F -> not B);  not all(F -> B) = any(F and not B)
+        kind = "all" if kind == "any" else "any"
+        body = canon(negate(body)) if not (isinstance(body, ast.Constant) and body.value is True) else ast.Constant(False)
+    # compose the domain away
+    for _ in range(6):
+        d = primary(dom)
+        if isinstance(d, ast.Call) and isinstance(d.func, ast.Name) and d.func.id in ("list", "tuple", "set", "iter", "sorted", "reversed") and d.args:
+            dom = d.args[0]
+            continue
+        cp = _comp_parts(d)
+        if cp is not None:
+            elt2, var2, dom2, filt2 = cp
+            body = _subst(body, var, elt2)
+            filters = [_subst(f, var, elt2) for f in filters] + list(filt2)
+            var, dom = var2, dom2
+            continue
+        if isinstance(d, ast.Call) and isinstance(d.func, ast.Name) and d.func.id == "filter" and len(d.args) == 2 and isinstance(d.args[0], ast.Lambda) \
+                and len(d.args[0].args.args) == 1:
+            lam = d.args[0]
+            filters = filters + [_subst(lam.body, lam.args.args[0].arg, ast.Name(var, ast.Load()))]
+            dom = d.args[1]
+            continue
+        break
+    # a vacuous `all(... False ...)` with filters: all(F -> False) = all(not F)
+    if kind == "all" and isinstance(body, ast.Constant) and body.value is False and filters:
+        body = canon(negate(filters[-1])) if len(filters) == 1 else canon(negate(ast.BoolOp(ast.And(), filters)))
+        filters = []
+    if kind == "any" and isinstance(body, ast.Constant) and body.value is True and filters:
+        body, filters = filters[-1], filters[:-1]
+    return kind, var, dom, [canon(f) for f in filters], canon(body)
+
+
+def unroll_literal_generators(e: ast.expr) -> ast.expr:
+    """comprehensions with a generator over a literal tuple/list of constants are expanded per constant:
+    `[f(a, o) for a in A for o in (c1, c2) if p(a, o)]` -> `__unroll__([f(a, c1) for a in A if p(a, c1)], [f(a, c2) for a in A if p(a, c2)])`
+    (for dependency / pattern questions: which values can the elements take)"""
+
+    class U(ast.NodeTransformer):
+        def _comp(self, node):  # type: ignore[no-untyped-def]
+            self.generic_visit(node)
+            for gi, g in enumerate(node.generators):
+                if isinstance(g.target, ast.Name) and isinstance(g.iter, (ast.Tuple, ast.List)) and g.iter.elts and all(isinstance(x, ast.Constant) for x in g.iter.elts) \
+                        and len(g.iter.elts) <= 4:
+                    copies = []
+                    for c in g.iter.elts:
+                        cp = copy.deepcopy(node)
+                        gen = cp.generators.pop(gi)
+                        cp = _Subst(g.target.id, c).visit(cp)
+                        if gen.ifs:
+                            cond = [_Subst(g.target.id, c).visit(copy.deepcopy(x)) for x in gen.ifs]
+                            if cp.generators:
+                                cp.generators[min(gi, len(cp.generators)) - 1 if gi else 0].ifs.extend(cond)
+                        if not cp.generators:
+                            # the literal generator was the only one: the element itself (under its conditions)
+                            elt = cp.value if isinstance(cp, ast.DictComp) else cp.elt
+                            cp = ast.Call(ast.Name("__ctl__", ast.Load()), [elt, *(cond if gen.ifs else [])], []) if gen.ifs else elt
+                        copies.append(cp)
+                    return self.visit(ast.Call(ast.Name("__unroll__", ast.Load()), copies, []))
+            return node
+
+        visit_ListComp = visit_SetComp = visit_GeneratorExp = visit_DictComp = _comp
+
+    return ast.fix_missing_locations(U().visit(copy.deepcopy(e)))
